@@ -1099,6 +1099,12 @@ func validateFlateLZW(v Version, p FlatePredictor, colors, bpc, columns int) err
 		if columns != 0 && (columns < 1 || columns > 1<<20) {
 			return fmt.Errorf("invalid number of columns %d", columns)
 		}
+		// the predictor itself has tighter limits; parameters which pass
+		// validation must be accepted by Encode
+		err := predictParams(p, colors, bpc, columns).Validate()
+		if err != nil {
+			return err
+		}
 	}
 	return nil
 }
